@@ -24,7 +24,7 @@ from collections import Counter
 import vcommon as V
 from gen import lintdet_gen as LG
 
-RUNS = 5
+RUNS = 8     # fresh processes per configuration (Go map order differs per process and per range)
 
 
 def corpus_cases():
@@ -73,7 +73,7 @@ def ms_noloc(o):
     return Counter((d[0], d[1], re.sub(r"/[^ ]*/cfg\d+/", "<dir>/", d[5])) for d in o["diags"])
 
 
-def go_inc_events(o):
+def go_inc_events(o, prefix="m"):
     """projection of the Go include expansion onto the model's events"""
     stmts = []
     for r in o.get("resolved", []):
@@ -84,9 +84,9 @@ def go_inc_events(o):
             continue
         m = d[5]
         if m.startswith("Cyclic include detected"):
-            errs.append(("c", int(m.split("/m")[-1].split(".vcl")[0])))
+            errs.append(("c", int(m.split("/" + prefix)[-1].split(".vcl")[0])))
         elif m.startswith("Failed to resolve include file"):
-            errs.append(("m", int(m.split(": m")[-1].split(".vcl")[0])))
+            errs.append(("m", int(m.split(": " + prefix)[-1].split(".vcl")[0])))
         else:
             errs.append(("?", m))
     return stmts, errs, bool(o["fatal"])
@@ -201,8 +201,41 @@ def run(ctx):
                 viol("nondeterminism", "two runs of the linter on the same include graph report different diagnostics",
                      {"files": LG.graph_files(*graphs[gi][1:]), "run1": outs[0]["diags"], "run2": outs[1]["diags"]})
 
-    # ------------------------------------------------------------------ B. programs x permutations x 5 runs
+    # ------------------------------------------------------------------ A2. statement-level modules with includes nested in blocks
     g = LG.LintGen(rng)
+    sgraphs = [g.stmt_graph() for _ in range(3000 if thorough else 220)]
+    sdirs = [write_cfg(os.path.join(base, "s"), i, LG.stmt_graph_files(*sg)) for i, sg in enumerate(sgraphs)]
+    sreps = [V.run_batch(impl, ["dir " + d for d in sdirs], hang_s=10) for _ in range(2)]
+    smod = V.run_batch([model], [LG.stmt_graph_model(*sg) for sg in sgraphs], hang_s=30)
+    nested_agree = 0
+    nested_cyc = 0
+    for si, sg in enumerate(sgraphs):
+        files = LG.stmt_graph_files(*sg)
+        outs = []
+        for rr in sreps:
+            st, o = parse_reply(rr[si])
+            if st != "ok":
+                viol("lint-" + st, "lint of statement-level modules with nested includes: %s (%s)" % (st, str(o)[:160]),
+                     {"files": files, "reply": str(o)[:400]}, {"kind": "lint-" + st})
+                break
+            outs.append(o)
+        else:
+            if ms_full(outs[0]) != ms_full(outs[1]):
+                viol("nondeterminism", "two runs of the linter on the same statement-level include graph differ", {"files": files})
+            me = model_inc_events(smod[si])
+            if me is None:
+                viol("include-model", "Model/Include.v does not finish within |modules|+1 fuel: %s" % smod[si], {"files": files})
+                continue
+            ge = go_inc_events(outs[0], "sm")
+            if any(k == "c" for k, _ in me[1]):
+                nested_cyc += 1
+            if Counter(ge[1]) != Counter(me[1]) or ge[2] != me[2]:
+                viol("include-diff", "include errors of nested statement-level includes differ between linter and Model/Include.v",
+                     {"files": files, "impl": [sorted(ge[1]), ge[2]], "model": [sorted(me[1]), me[2]]})
+            else:
+                nested_agree += 1
+
+    # ------------------------------------------------------------------ B. programs x permutations x RUNS runs
     n_prog = 4000 if thorough else 520
     max_perm = 12 if thorough else 6
     configs = []      # (prog index, order, text, model request, ids)
@@ -214,8 +247,12 @@ def run(ctx):
             progs.append(("corpus/" + label, None, None, []))
         progs[corpus_pi[label]][3].append(files)
     for pi in range(n_prog):
-        subs, others = g.program()
-        progs.append(("gen-%d" % pi, subs, others, None))
+        if pi % 5 < 2:
+            subs, others = g.shaped_program()
+            progs.append(("shape-%d" % pi, subs, others, None))
+        else:
+            subs, others = g.program()
+            progs.append(("gen-%d" % pi, subs, others, None))
     cfg_dirs = []
     for pi, (label, subs, others, files) in enumerate(progs):
         if files is not None:
@@ -223,9 +260,16 @@ def run(ctx):
                 configs.append((pi, (k,), fs, None, None))
             continue
         n = len(subs)
-        perms = list(itertools.permutations(range(n)))
-        if len(perms) > max_perm:
-            perms = [perms[0]] + rng.sample(perms[1:], max_perm - 1)
+        if n <= 5:
+            perms = list(itertools.permutations(range(n)))
+            if len(perms) > max_perm:
+                perms = [perms[0]] + rng.sample(perms[1:], max_perm - 1)
+        else:                       # larger call-graph shapes: a few random orders
+            perms = [tuple(range(n))]
+            for _ in range(min(max_perm, 4) - 1):
+                o = list(range(n))
+                rng.shuffle(o)
+                perms.append(tuple(o))
         inc = ()
         extra = {}
         if any("include \"sm" in t for sb in subs for t, _ in sb.items):
@@ -377,7 +421,8 @@ def run(ctx):
         "distinct_nontrivial": len(nontrivial) + len(graphs),
         "include_graphs": len(graphs), "include_graph_kinds": dict(graph_kinds), "include_graphs_exhaustive_up_to_modules": exhaustive_k,
         "include_graphs_with_cycle": cyc_graphs, "include_expansion_agree": inc_agree, "include_graph_lints_ok": graph_lints,
-        "programs": len(progs), "configurations": len(configs), "runs_per_configuration": RUNS,
+        "nested_include_graphs": len(sgraphs), "nested_include_agree": nested_agree, "nested_include_graphs_with_cycle": nested_cyc,
+        "programs": len(progs), "shaped_call_graph_programs": sum(1 for p in progs if p[0].startswith("shape-")), "configurations": len(configs), "runs_per_configuration": RUNS,
         "configurations_linted": lint_ok, "parse_rejected": parse_rejected,
         "scope_inference_agree": scope_agree, "recursion_set_agree": cyc_agree, "programs_with_recursion": progs_with_cycle,
         "permutation_groups": perm_groups, "permutation_pairs": perm_pairs, "cli_process_runs": cli_runs,
